@@ -1,0 +1,6 @@
+//go:build !verif
+
+package gohlslib
+
+// verifYield is a no-op unless the "verif" build tag is set.
+func verifYield(string) {}
